@@ -110,7 +110,7 @@ def run_history(ctx, h, which, mode):
         raise symex.HarnessError(which)
 
 
-def h_dest(ctx, N1, N2, mode, variant, abandon=False, lower_p=False):
+def h_dest(ctx, N1, N2, mode, variant, abandon=False, lower_p=False, follow_large=False):
     """variant 'history': same handler object after an earlier transaction;
     variant 'sibling': another handler instance is mid-transaction meanwhile"""
     # two files with the same write log must get the same checksum verdict: use the injective
@@ -122,8 +122,14 @@ def h_dest(ctx, N1, N2, mode, variant, abandon=False, lower_p=False):
     table = {ConditionCode.FILE_SIZE_ERROR: FaultHandlerCode.ABANDON_TRANSACTION,
              ConditionCode.NAK_LIMIT_REACHED: FaultHandlerCode.ABANDON_TRANSACTION} if abandon else None
     kw = {"immediate_nak": imm, "fault_table": table, "nak_limit": 1 if abandon else 2}
-    fresh = DstScenario(ctx, w, mode=mode, cktype=ChecksumType.CRC_32, closure=False, rig_kwargs=kw)
-    used = DstScenario(ctx, w, mode=mode, cktype=ChecksumType.CRC_32, closure=False, rig_kwargs=kw, S=fresh.S)
+    if follow_large:
+        # the follow-up transaction uses large-file PDUs (64-bit offsets: 16 bytes per segment request), the earlier
+        # one the normal format; the packet length admits 3 normal but only 1 large request per NAK PDU
+        kw["max_packet_len"] = 45
+    fresh = DstScenario(ctx, w, mode=mode, cktype=ChecksumType.CRC_32, closure=False, rig_kwargs=kw,
+                        large=follow_large)
+    used = DstScenario(ctx, w, mode=mode, cktype=ChecksumType.CRC_32, closure=False, rig_kwargs=kw, S=fresh.S,
+                       large=follow_large)
     # ---- the other activity: earlier transaction on `used`, or a sibling instance left busy
     other_ids = Ids(2, 2, seq=40)
     if variant == "history":
@@ -283,6 +289,9 @@ def plan(tier):
                       twin_share=0.02, obligations=["history_abandoned"]))
     specs.append(Spec("dest/ack/history/mib-changed-after-deferred-nak/N2=4", "vf.harness.c11:h_dest",
                       {"N1": "eof_missing_cancel", "N2": 4, "mode": "ack", "variant": "history", "lower_p": True},
+                      twin_share=0.02, obligations=["history_ended_idle"]))
+    specs.append(Spec("dest/ack/history/large-file-pdus-after-normal-ones/N2=4", "vf.harness.c11:h_dest",
+                      {"N1": "eof_missing_cancel", "N2": 4, "mode": "ack", "variant": "history", "follow_large": True},
                       twin_share=0.02, obligations=["history_ended_idle"]))
     specs.append(Spec("dest/ack/history/abandoned-with-queued-pdu/N2=4", "vf.harness.c11:h_dest",
                       {"N1": "abandoned_with_queued_pdu", "N2": 4, "mode": "ack", "variant": "history", "abandon": True},
